@@ -156,6 +156,14 @@ Qed.
 (* ================= schedules: the serial schedule lets every thread finish ================= *)
 Definition all_done (ths : list thread) : Prop := Forall (fun th => th_todo th = []) ths.
 
+Definition all_doneb (ths : list thread) : bool :=
+  forallb (fun th => match th_todo th with [] => true | _ => false end) ths.
+Lemma all_done_dec ths : all_doneb ths = true -> all_done ths.
+Proof.
+  unfold all_doneb, all_done. rewrite forallb_forall, Forall_forall. intros H th Hin. specialize (H th Hin).
+  destruct (th_todo th); [reflexivity|discriminate H].
+Qed.
+
 Lemma run_sched_app s1 : forall p ths s2,
   run_sched p ths (s1 ++ s2) = let '(p1, ths1) := run_sched p ths s1 in run_sched p1 ths1 s2.
 Proof.
@@ -626,8 +634,11 @@ Proof.
   { assert (I0 : Inv (fun _ _ => True) (init_pool ix0 0)) by (apply init_inv; exact I).
     destruct (step (init_pool ix0 0) (OSelect 0 [4;2;0;0])) as [o p1] eqn:E. cbn [snd].
     exact (proj1 (step_inv _ _ _ _ _ I0 E)). }
-  vm_compute. split; [repeat constructor|]. split; [reflexivity|]. split; [reflexivity|].
-  split; [repeat constructor; discriminate|]. split; [discriminate|]. split; reflexivity.
+  (* never normalise a thread (its [th_fin] is a closure over the kernels): reduce each conjunct to data first *)
+  split; [apply all_done_dec; vm_compute; reflexivity|].
+  split; [vm_compute; reflexivity|]. split; [vm_compute; reflexivity|].
+  split; [vm_compute; repeat (apply Forall_cons; [discriminate|]); apply Forall_nil|].
+  split; [vm_compute; discriminate|]. split; vm_compute; reflexivity.
 Qed.
 
 (* the mixed premise evaluated on the example's postings: every per-term choice, several phrases and row vectors *)
@@ -636,10 +647,10 @@ Example mixed_hyp_holds_on_example :
   | AOk ix =>
       let base := ix_posts ix in
       let maxd := N.of_nat (length (ix_lens ix)) - 1 in
-      Forall (fun rows =>
-        Forall (fun ts =>
+      Forall (fun rows : list N =>
+        Forall (fun ts : list N =>
           Forall (fun choice : list bool =>
-            let encs := map (fun ct => if fst ct then get_enc (HFiltered base (np_unique rows)) (snd ct)
+            let encs := map (fun ct : bool * N => if fst ct then get_enc (HFiltered base (np_unique rows)) (snd ct)
                                        else lookup_posts (snd ct) base) (combine choice ts) in
             (ado enc <- all_ok encs;
              ado pf <- compute_phrase_freqs enc;
